@@ -196,3 +196,73 @@ pub fn stub_local_now() -> DateTime<Local> {
 pub fn stub_regex_new(_re: &str) -> Result<regex::Regex, regex::Error> {
     Err(regex::Error::Syntax(String::new()))
 }
+
+/// chrono's strftime-style parser is environment for the evaluator harnesses: any parse result.
+pub fn stub_naive_parse_from_str(_s: &str, _fmt: &str) -> chrono::ParseResult<NaiveDateTime> {
+    if kani::any() {
+        let secs: i64 = kani::any();
+        kani::assume(secs > -(1i64 << 40) && secs < (1i64 << 40));
+        Ok(DateTime::from_timestamp(secs, 0).unwrap().naive_utc())
+    } else {
+        NaiveDateTime::parse_from_str("", "%Y")
+    }
+}
+
+/// `Display for Value` where the rendered text is not the subject.
+pub fn stub_value_display(_v: &Value, _f: &mut std::fmt::Formatter<'_>) -> std::fmt::Result {
+    Ok(())
+}
+
+// ---------------------------------------------------------------------------------------------
+// Scalar-only replacements for the derived glue of `Value` (a deliberate cut, DESIGN.md R8): the derived
+// Clone / PartialEq / PartialOrd recurse through `Array(ValueType, Vec<Value>)`, and CBMC walks that
+// recursion to the unwinding bound on every call even when no array can occur.  These stubs behave exactly
+// like the derived code on the seven scalar variants (the derived code itself is decided in C16) and
+// exclude arrays by assumption, so harnesses using them state "no array operand" in their bounds.
+pub fn stub_value_clone_scalar(v: &Value) -> Value {
+    match v {
+        Value::Null => Value::Null,
+        Value::Int(x) => Value::Int(*x),
+        Value::Float(x) => Value::Float(*x),
+        Value::Bool(x) => Value::Bool(*x),
+        Value::String(x) => Value::String(x.clone()),
+        Value::Timestamp(x) => Value::Timestamp(*x),
+        Value::Interval(x) => Value::Interval(*x),
+        Value::Array(_, _) => { kani::assume(false); Value::Null }
+    }
+}
+
+fn scalar_rank(v: &Value) -> u8 {
+    match v {
+        Value::Null => 0, Value::Int(_) => 1, Value::Float(_) => 2, Value::Bool(_) => 3,
+        Value::String(_) => 4, Value::Array(_, _) => 5, Value::Timestamp(_) => 6, Value::Interval(_) => 7,
+    }
+}
+
+pub fn stub_value_eq_scalar(a: &Value, b: &Value) -> bool {
+    match (a, b) {
+        (Value::Null, Value::Null) => true,
+        (Value::Int(x), Value::Int(y)) => x == y,
+        (Value::Float(x), Value::Float(y)) => x == y,
+        (Value::Bool(x), Value::Bool(y)) => x == y,
+        (Value::String(x), Value::String(y)) => x == y,
+        (Value::Timestamp(x), Value::Timestamp(y)) => x == y,
+        (Value::Interval(x), Value::Interval(y)) => x == y,
+        (Value::Array(_, _), _) | (_, Value::Array(_, _)) => { kani::assume(false); false }
+        _ => false,
+    }
+}
+
+pub fn stub_value_partial_cmp_scalar(a: &Value, b: &Value) -> Option<std::cmp::Ordering> {
+    match (a, b) {
+        (Value::Null, Value::Null) => Some(std::cmp::Ordering::Equal),
+        (Value::Int(x), Value::Int(y)) => x.partial_cmp(y),
+        (Value::Float(x), Value::Float(y)) => x.partial_cmp(y),
+        (Value::Bool(x), Value::Bool(y)) => x.partial_cmp(y),
+        (Value::String(x), Value::String(y)) => x.partial_cmp(y),
+        (Value::Timestamp(x), Value::Timestamp(y)) => x.partial_cmp(y),
+        (Value::Interval(x), Value::Interval(y)) => x.partial_cmp(y),
+        (Value::Array(_, _), _) | (_, Value::Array(_, _)) => { kani::assume(false); None }
+        _ => scalar_rank(a).partial_cmp(&scalar_rank(b)),
+    }
+}
